@@ -373,11 +373,12 @@ func refVersion(s string, n int) (interface{}, error) {
 
 // The layouts the generator uses; each is parsed by hand here.
 var refLayouts = map[string]string{
-	"2006-01-02":          "Y-M-D",
-	"2006-01-02 15:04:05": "Y-M-D h:m:s",
-	"2006/01/02":          "Y/M/D",
-	"20060102":            "YMD",
-	"02.01.2006 15:04":    "D.M.Y h:m",
+	"2006-01-02":                "Y-M-D",
+	"2006-01-02T15:04:05Z07:00": "Y-M-DTh:m:sZ", // Z: "Z" or a numeric zone offset +hh:mm / -hh:mm
+	"2006-01-02 15:04:05":       "Y-M-D h:m:s",
+	"2006/01/02":                "Y/M/D",
+	"20060102":                  "YMD",
+	"02.01.2006 15:04":          "D.M.Y h:m",
 }
 
 func refParseTime(op string, v interface{}, layout string) (interface{}, error) {
@@ -390,6 +391,7 @@ func refParseTime(op string, v interface{}, layout string) (interface{}, error) 
 		return nil, &OutOfDomain{Why: "layout outside the reference pool"}
 	}
 	var Y, M, D, h, m, sec int
+	zone := 0 // seconds east of UTC
 	i := 0
 	num := func(w int) (int, bool) {
 		if i+w > len(s) {
@@ -422,6 +424,25 @@ func refParseTime(op string, v interface{}, layout string) (interface{}, error) 
 			m, ok = num(2)
 		case 's':
 			sec, ok = num(2)
+		case 'Z':
+			if i < len(s) && s[i] == 'Z' {
+				i++
+				ok = true
+				break
+			}
+			if i < len(s) && (s[i] == '+' || s[i] == '-') {
+				neg := s[i] == '-'
+				i++
+				zh, ok1 := num(2)
+				ok2 := i < len(s) && s[i] == ':'
+				i++
+				zm, ok3 := num(2)
+				ok = ok1 && ok2 && ok3 && zh <= 23 && zm <= 59
+				zone = zh*3600 + zm*60
+				if neg {
+					zone = -zone
+				}
+			}
 		default:
 			ok = i < len(s) && s[i] == byte(c)
 			i++
@@ -443,7 +464,7 @@ func refParseTime(op string, v interface{}, layout string) (interface{}, error) 
 	if D > dim {
 		return berr(op, "day out of range")
 	}
-	return time.Date(Y, time.Month(M), D, h, m, sec, 0, time.UTC).Unix(), nil
+	return time.Date(Y, time.Month(M), D, h, m, sec, 0, time.UTC).Unix() - int64(zone), nil
 }
 
 // ---------------------------------------------------------------------------
